@@ -104,7 +104,9 @@ class Check(CheckBase):
                           'host': ['s3.vf.test', 'minio.vf.test:9000', 'S3.VF.Test', 's3.vf.test:443', 'localhost:80'][i % 5] if i % 3 == 0 else 's3.vf.test',
                           'scheme': 'http' if i % 5 == 4 and i % 3 == 0 else 'https',
                           'clock': ['steady', 'midnight', 'new-year'][i % 3], 'faults': i % 4 == 1,
-                          'ops': 30 if quick else 80})
+                          'ops': 30 if quick else 80,
+                          # a few backends also send one large streamed payload (multi-megabyte chunks and snapshot bodies exist)
+                          'big': [None, 8 * 2**20 + 1, 5 * 2**20 + 3, 16 * 2**20 + 5, 33 * 2**20][(i // 8) % 5] if i % 8 == 0 else None})
         return cases
 
     def worker_setup(self):
@@ -122,6 +124,8 @@ class Check(CheckBase):
                     unmet.append(f'class {cls} not seen in {where}')
         if c.get('retried_requests_verified', 0) < 20:
             unmet.append('too few retried requests verified')
+        if c.get('large_streamed_uploads', 0) < 2:
+            unmet.append('too few large streamed uploads')
         if c.get('date_changes_within_one_backend', 0) < 10:
             unmet.append('too few date changes within the life of one backend object')
         return unmet[:6]
@@ -147,6 +151,13 @@ class Check(CheckBase):
                 faults.append({'op': op, 'nth': r.randrange(0, 4), 'count': r.choice([1, 2]),
                                'kind': r.choice(['status', 'drop-request', 'connect']), 'status': r.choice([500, 503]),
                                'after': r.choice([0, 1, 2])})
+            # a service that answers with a redirect (new buckets, other region): whatever the adapter emits next is a request
+            # like any other and must be signed for the host and path it goes to
+            for op in r.sample(['s3:PUT', 's3:GET', 's3:HEAD', 's3:DELETE', 's3:LIST'], 2):
+                target = r.choice([f'https://{bucket}.s3.other-region.vf.test/moved', f'/{bucket}/moved/elsewhere',
+                                   f'https://s3.vf.test/{bucket}/moved?x=1'])
+                faults.append({'op': op, 'nth': r.randrange(4, 9), 'count': 1, 'kind': 'status', 'status': r.choice([301, 307, 308]),
+                               'headers': {'location': target}, 'body': b''})
         svc = fakehttp.FakeS3(bucket, {key_id: secret}, page_size=r.choice([1, 2, 3, 7]), faults=faults)
         fakehttp.attach(backend, svc)
         base = {'steady': _dt.datetime(2024, 5, 17, 12, 0, 0), 'midnight': _dt.datetime(2024, 2, 29, 23, 59, 57),
@@ -174,6 +185,15 @@ class Check(CheckBase):
 
         async def go():
             names = []
+            if case.get('big'):
+                data = r.randbytes(1 << 16) * (case['big'] // (1 << 16)) + r.randbytes(case['big'] % (1 << 16))
+                name, _ = gen_name(r)
+                try:
+                    await backend.upload_stream(name, io.BytesIO(data), len(data), 128_000)
+                    model[name] = data
+                    counters['large_streamed_uploads'] = counters.get('large_streamed_uploads', 0) + 1
+                except Exception:
+                    counters['ops_failed'] = counters.get('ops_failed', 0) + 1
             for _ in range(case['ops']):
                 op = r.choice(['upload', 'upload_stream', 'download', 'download_stream', 'exists', 'delete', 'list', 'list'])
                 if op in ('upload', 'upload_stream') or not names:
